@@ -196,7 +196,28 @@ def build(chk):
         with T.no_safety():
             lemma_pos_root(T.sqrt((r * ux) * (r * ux) + (r * uy) * (r * uy)), r * T.sqrt(ux * ux + uy * uy))
         dx, dy = lx / z3.ToReal(nx), ly / z3.ToReal(ny)
-        prove("cell-size-passed", T.treal(dt.at(i)) * rho == cfl * (dx * dy / (dx + dy)))
+        rp = {"fn": "timestep2d_clause", "args": {}}
+        prove("cell-size-passed", T.treal(dt.at(i)) * rho == cfl * (dx * dy / (dx + dy)), replay=rp)
+        # the same statement through the contract of model.timestep (clause 'value' above: dt*rho(A) = cfl*size, pointwise): the
+        # call site hands the data of the field, the characteristic size dx*dy/(dx+dy) and the CFL number
+        tsf = it.getattr(m, "timestep").func
+        rec = {}
+
+        class Capture:
+            def apply(self, interp, f_, bound):
+                rec.update(bound)
+                return A.input_array("dtm", n)
+        it.contracts[tsf.qualname] = Capture()
+        it.active_contracts.add(tsf.qualname)
+        try:
+            it.call(it.getattr(disc, "calc_timestep"), [f, cfl], {})
+        finally:
+            it.active_contracts.discard(tsf.qualname)
+        args = [v for k, v in rec.items() if k != "self"]
+        sizes = [v for v in args if not isinstance(v, (list, tuple)) and T.is_sym(v) and not v.eq(cfl)]
+        prove("call-site/passes-one-size-and-the-cfl", len(sizes) == 1 and any(T.is_sym(v) and v.eq(cfl) for v in args), replay=rp)
+        if len(sizes) == 1:
+            prove("call-site/characteristic-size", T.treal(sizes[0]) * (dx + dy) == dx * dy, replay=rp)
     chk.run("fvm2dcart/calc_timestep", disc2d)
 
 
